@@ -215,6 +215,41 @@ def _show_gens(gens):
 # boolean normal form
 # ----------------------------------------------------------------------
 
+def strcat(a, b):
+    """Concatenation, re-associated to the left (a + (b + c) == (a + b) + c
+    for strings and lists), so that building a text piecewise or in one
+    expression gives one key."""
+    if b[0] == 'strcat':
+        return strcat(strcat(a, b[1]), b[2])
+    return ('strcat', a, b)
+
+
+def lits_of(k, pol=True):
+    """Flatten one condition into a set of literal keys."""
+    if not pol:
+        k = b_not(k)
+    if k[0] == 'and':
+        out = set()
+        for x in k[1]:
+            out |= lits_of(x, True)
+        return out
+    if k[0] == 'const':
+        return set() if k[1] else {('const', False)}
+    return {k}
+
+
+def exists_key(gens, lits):
+    """'some iteration of gens satisfies all lits' -- the one form shared by
+    any(genexp), a flag-and-break loop and an early exit out of a loop."""
+    g2 = []
+    ls = set(lits)
+    for base, it, conds in gens:
+        for c in conds:
+            ls |= lits_of(c)
+        g2.append((base, it, ()))
+    return ('exists', tuple(g2), tuple(sorted(ls, key=_sk)))
+
+
 def b_not(k):
     if k[0] == 'not':
         return k[1]
@@ -232,7 +267,41 @@ def b_not(k):
     return ('not', k)
 
 
+def _len_arg(k):
+    if k[0] == 'call' and k[1] == ('name', 'len') and len(k[2]) == 1 \
+            and not k[3]:
+        return k[2][0]
+    return None
+
+
+def _num(k, v):
+    return k[0] == 'num' and k[1] == v
+
+
 def b_cmp(op, a, b):
+    # emptiness tests: len(x) > 0, len(x) != 0, len(x) >= 1  ==  bool(x)
+    la, lb = _len_arg(a), _len_arg(b)
+    if la is not None and lb is None:
+        if (op in ('>', '!=') and _num(b, 0)) or (op == '>=' and _num(b, 1)):
+            return ('truthy', la)
+        if (op in ('<=', '==') and _num(b, 0)) or (op == '<' and _num(b, 1)):
+            return ('not', ('truthy', la))
+    if lb is not None and la is None:
+        if (op in ('<', '!=') and _num(a, 0)) or (op == '<=' and _num(a, 1)):
+            return ('truthy', lb)
+        if (op in ('>=', '==') and _num(a, 0)) or (op == '>' and _num(a, 1)):
+            return ('not', ('truthy', lb))
+    if op in ('==', '!=') and (a[0] == 'ifexp') != (b[0] == 'ifexp'):
+        x, c = (a, b) if a[0] == 'ifexp' else (b, a)
+        if c[0] in ('num', 'const') and x[2][0] in ('num', 'const') \
+                and x[3][0] in ('num', 'const') and x[2] != x[3]:
+            r = None
+            if c == x[2]:
+                r = x[1]
+            elif c == x[3]:
+                r = b_not(x[1])
+            if r is not None:
+                return r if op == '==' else b_not(r)
     if op == '<':
         return ('cmp', '<', a, b)
     if op == '>':
@@ -256,7 +325,7 @@ def b_cmp(op, a, b):
     raise Unmodelled('comparison %s' % op)
 
 
-_BOOLISH = ('cmp', 'not', 'and', 'or')
+_BOOLISH = ('cmp', 'not', 'and', 'or', 'truthy', 'exists')
 
 
 def as_bool(k):
@@ -368,6 +437,14 @@ def rename(k, mapping):
                  for x in k)
 
 
+def mentions_any(k, atoms):
+    """Does any of `atoms` occur anywhere inside k?"""
+    atoms = set(atoms)
+    if not atoms:
+        return False
+    return mentions(k, lambda x: x in atoms)
+
+
 def mentions(k, pred):
     """Does any sub-key satisfy pred?"""
     if isinstance(k, Poly):
@@ -420,12 +497,15 @@ class State(object):
 
 
 class Evaluator(object):
-    def __init__(self, transparent=None, record_calls=True):
+    def __init__(self, transparent=None, record_calls=True, opaque=()):
         self.transparent = dict(TRANSPARENT_CALLS)
         if transparent:
             self.transparent.update(transparent)
+        for name in opaque:
+            self.transparent.pop(name, None)
         self.record_calls = record_calls
         self.depth = 0
+        self.ctx = None
 
     # -- expressions -----------------------------------------------------
     def ev(self, node, st):
@@ -533,7 +613,9 @@ class Evaluator(object):
         if op == '%' and ka[0] == 'const' and isinstance(ka[1], str):
             return ('fmt', ka, kb)
         if op in ('+', '*') and (stringy(ka) or stringy(kb)):
-            return ('strcat' if op == '+' else 'seqrep', ka, kb)
+            if op == '+':
+                return strcat(ka, kb)
+            return ('seqrep', ka, kb)
         if op == '+':
             return to_poly(a) + to_poly(b)
         if op == '-':
@@ -553,21 +635,17 @@ class Evaluator(object):
     def ev_BoolOp(self, n, st):
         vals = [as_bool(self.k(v, st)) for v in n.values]
         t = 'and' if isinstance(n.op, ast.And) else 'or'
-        flat = []
-        for v in vals:
-            if v[0] == t:
-                flat.extend(v[1])
-            else:
-                flat.append(v)
         # note: value-returning and/or (x or default) is also mapped here;
         # rules that care about the value use ifexp forms instead
-        return (t, tuple(sorted(set(flat), key=_sk)))
+        return self._bool(t, vals)
 
     def ev_Compare(self, n, st):
         left = self.k(n.left, st)
         parts = []
         for op, right in zip(n.ops, n.comparators):
             r = self.k(right, st)
+            if isinstance(op, (ast.In, ast.NotIn)) and r[0] == 'list':
+                r = ('tuple', r[1])     # membership in a literal
             parts.append(b_cmp(_CMPOPS[type(op)], left, r))
             left = r
         if len(parts) == 1:
@@ -583,10 +661,20 @@ class Evaluator(object):
         names = [a.arg for a in n.args.args]
         for i, a in enumerate(names):
             st2.env[a] = ('bv', 'lam', i)
-        return ('lambda', len(names), self.k(n.body, st2))
+        body = self.k(n.body, st2)
+        # eta-reduction: lambda s: f(s)  ==  f
+        if body[0] == 'call' and not body[3] and body[2] == tuple(
+                ('bv', 'lam', i) for i in range(len(names))) and names \
+                and not mentions(body[1], lambda x: x[0] == 'bv'
+                                 and x[1:2] == ('lam',)):
+            return body[1]
+        return ('lambda', len(names), body)
 
     def ev_Starred(self, n, st):
-        return ('star', self.k(n.value, st))
+        v = self.k(n.value, st)
+        if v[0] == 'comp' and v[1] in ('list', 'gen'):
+            v = ('comp', 'gen') + v[2:]     # f(*[..]) == f(*(..))
+        return ('star', v)
 
     def _call_name(self, fk):
         if fk[0] == 'name':
@@ -595,6 +683,141 @@ class Evaluator(object):
             b = self._call_name(fk[1])
             return None if b is None else b + '.' + fk[2]
         return None
+
+    # iterables whose wrapping in list()/tuple() changes nothing for the
+    # consumer
+    _ITER_CONSUMERS = {'dict', 'list', 'tuple', 'set', 'frozenset', 'sorted',
+                       'sum', 'any', 'all', 'min', 'max', 'enumerate', 'zip',
+                       'len', 'reversed', 'np.array', 'numpy.array'}
+    _LOGICAL = {'np.logical_not': 'not', 'numpy.logical_not': 'not',
+                'np.logical_and': 'and', 'numpy.logical_and': 'and',
+                'np.logical_or': 'or', 'numpy.logical_or': 'or'}
+
+    def _enumerable(self, node, st):
+        """Elements of an iterable that is spelled out in the source:
+        a literal tuple/list or range(<small constant>)."""
+        if isinstance(node, (ast.Tuple, ast.List)) and len(node.elts) <= 8 \
+                and not any(isinstance(e, ast.Starred) for e in node.elts):
+            return list(node.elts)
+        if isinstance(node, ast.Call) and isinstance(node.func, ast.Name) \
+                and node.func.id == 'range' and 'range' not in st.env \
+                and not node.keywords and 1 <= len(node.args) <= 2:
+            vals = []
+            for a in node.args:
+                k = self.k(a, st)
+                if k[0] != 'num' or k[1].denominator != 1:
+                    return None
+                vals.append(int(k[1]))
+            lo, hi = (0, vals[0]) if len(vals) == 1 else vals
+            if 0 <= hi - lo <= 8:
+                return [ast.Constant(value=i) for i in range(lo, hi)]
+        return None
+
+    def _known_length(self, node, st):
+        """x[0], ..., x[n-1] when the path has established len(x) == n."""
+        it = self.k(node, st)
+        ln = ('call', ('name', 'len'), (it,), ())
+        for e in st.trace:
+            if e[0] != 'cond':
+                continue
+            k, pol = e[1], e[2]
+            if k[0] == 'not':
+                k, pol = k[1], not pol
+            if pol and k[0] == 'cmp' and k[1] == '==' and ln in k[2]:
+                other = [x for x in k[2] if x != ln]
+                if len(other) == 1 and other[0][0] == 'num' \
+                        and other[0][1].denominator == 1 \
+                        and 0 < other[0][1] <= 8:
+                    return [ast.copy_location(ast.Subscript(
+                        value=node, slice=ast.Constant(value=i),
+                        ctx=ast.Load()), node)
+                        for i in range(int(other[0][1]))]
+        return None
+
+    def _operator_name(self, name):
+        """'add' / 'sub' / 'mul' when `name` is that function of the
+        operator module in the analysed module's imports."""
+        ctx = getattr(self, 'ctx', None)
+        if ctx is None or name in getattr(self, 'locals_', ()):
+            return None
+        for stmt in ctx[1].body:
+            if isinstance(stmt, ast.ImportFrom) and stmt.module == 'operator':
+                for a in stmt.names:
+                    if (a.asname or a.name) == name and a.name in (
+                            'add', 'sub', 'mul'):
+                        return a.name
+        return None
+
+    def _apply_binary(self, f, x, y):
+        op = self._operator_name(f[1]) if f[0] == 'name' else None
+        if op == 'add':
+            return (to_poly(poly_of_key(x)) + to_poly(poly_of_key(y))).key()
+        if op == 'sub':
+            return (to_poly(poly_of_key(x)) - to_poly(poly_of_key(y))).key()
+        if op == 'mul':
+            return (to_poly(poly_of_key(x)) * to_poly(poly_of_key(y))).key()
+        return ('call', f, (x, y), ())
+
+    def _quantifier(self, which, comp_node, st):
+        """any(...) / all(...) over a generator expression."""
+        if len(comp_node.generators) == 1 and not \
+                comp_node.generators[0].is_async:
+            g = comp_node.generators[0]
+            elts = self._enumerable(g.iter, st)
+            if elts is None:
+                elts = self._known_length(g.iter, st)
+            if elts is not None:
+                vals = []
+                for e in elts:
+                    st2 = st.copy()
+                    self._assign_name_only(g.target, self.ev(e, st2), st2)
+                    v = as_bool(self.k(comp_node.elt, st2))
+                    guards = [as_bool(self.k(c, st2)) for c in g.ifs]
+                    if which == 'any':
+                        v = self._bool('and', guards + [v])
+                    else:
+                        v = self._bool('or', [b_not(x) for x in guards]
+                                       + [v])
+                    vals.append(v)
+                return self._bool('or' if which == 'any' else 'and', vals)
+        comp = self._comp(comp_node, st)
+        elt = as_bool(comp[2])
+        if which == 'any':
+            return exists_key(comp[3], lits_of(elt))
+        # all(p) == not any(not p)
+        return b_not(exists_key(comp[3], lits_of(b_not(elt))))
+
+    def _bool(self, t, vals):
+        flat = []
+        for v in vals:
+            if v[0] == t:
+                flat.extend(v[1])
+            elif v[0] == 'const' and isinstance(v[1], bool):
+                if v[1] == (t == 'or'):
+                    return ('const', v[1])
+            else:
+                flat.append(v)
+        flat = sorted(set(flat), key=_sk)
+        if not flat:
+            return ('const', t == 'and')
+        if len(flat) == 1:
+            return flat[0]
+        return (t, tuple(flat))
+
+    def _assign_name_only(self, target, val, st):
+        if isinstance(target, ast.Name):
+            st.env[target.id] = val
+        elif isinstance(target, (ast.Tuple, ast.List)):
+            vk = key(val)
+            for i, e in enumerate(target.elts):
+                if vk[0] in ('tuple', 'list') and len(vk[1]) == len(
+                        target.elts):
+                    self._assign_name_only(e, poly_of_key(vk[1][i]), st)
+                else:
+                    self._assign_name_only(
+                        e, ('sub', vk, ('num', Fraction(i))), st)
+        else:
+            raise Unmodelled('loop target %s' % src(target))
 
     def ev_Call(self, n, st):
         fk = self.k(n.func, st)
@@ -606,15 +829,95 @@ class Evaluator(object):
             res = ('sum', comp[2], comp[3])
             self._note_call(st, res, n)
             return res
+        if cname in ('any', 'all') and len(n.args) == 1 and not n.keywords \
+                and isinstance(n.args[0], (ast.GeneratorExp, ast.ListComp)):
+            return self._quantifier(cname, n.args[0], st)
+        if cname in ('map',) and len(n.args) == 2 and not n.keywords \
+                and not isinstance(n.args[0], ast.Lambda):
+            # map(f, xs) == (f(x) for x in xs)
+            f = self.k(n.args[0], st)
+            it = self.k(n.args[1], st)
+            base = ('bv', self.depth)
+            return ('comp', 'gen', ('call', f, (base,), ()),
+                    ((base, it, ()),))
+        if cname == 'map' and len(n.args) == 3 and not n.keywords:
+            # map(f, xs, [c]*len(xs)) == (f(x, c) for x in xs)
+            f = self.k(n.args[0], st)
+            xs = self.k(n.args[1], st)
+            if xs[0] == 'call' and self._call_name(xs[1]) in (
+                    'list', 'tuple') and len(xs[2]) == 1 and not xs[3]:
+                xs = xs[2][0]
+            rep = self.k(n.args[2], st)
+            if rep[0] == 'seqrep':
+                a, b = rep[1], rep[2]
+                if b[0] in ('list', 'tuple'):
+                    a, b = b, a
+                if a[0] in ('list', 'tuple') and len(a[1]) == 1 \
+                        and b == ('call', ('name', 'len'), (xs,), ()):
+                    base = ('bv', self.depth)
+                    elt = self._apply_binary(f, base, a[1][0])
+                    return ('comp', 'gen', elt, ((base, xs, ()),))
         args = [self.k(a, st) for a in n.args]
         kws = tuple(sorted(((kw.arg, self.k(kw.value, st))
                             for kw in n.keywords), key=_sk))
+        if len(args) == 2 and not kws and fk[0] == 'name' \
+                and self._operator_name(fk[1]) is not None:
+            return poly_of_key(self._apply_binary(fk, args[0], args[1]))
         if cname in self.transparent and len(args) == 1 and not kws:
             return poly_of_key(args[0])
+        if cname in self._LOGICAL and not kws:
+            t = self._LOGICAL[cname]
+            if t == 'not' and len(args) == 1:
+                return b_not(as_bool(args[0]))
+            if t != 'not' and len(args) == 2:
+                return self._bool(t, [as_bool(a) for a in args])
         if fk[0] == 'attr' and fk[2] == 'keys' and not args and not kws:
             # iterating / testing membership / len of d.keys() is the same
             # as of d
             return poly_of_key(fk[1])
+        if fk[0] == 'attr' and fk[2] == '__str__' and not args and not kws:
+            fk, args, cname = ('name', 'str'), [fk[1]], 'str'
+        if cname in ('tuple', 'list', 'dict') and not args and not kws:
+            return (cname, ())
+        if cname == 'getattr' and len(args) == 2 and not kws \
+                and args[1][0] == 'const' and isinstance(args[1][1], str):
+            return ('attr', args[0], args[1][1])
+        if cname in self._ITER_CONSUMERS and args and not (
+                cname == 'len'):
+            # f(list(xs)) == f(xs) for consumers that only iterate
+            a0 = args[0]
+            if a0[0] == 'call' and self._call_name(a0[1]) in (
+                    'list', 'tuple') and len(a0[2]) == 1 and not a0[3]:
+                args[0] = a0[2][0]
+            elif a0[0] == 'comp' and a0[1] == 'list' and cname != 'list':
+                args[0] = ('comp', 'gen') + a0[2:]
+        if cname == 'dict' and len(args) == 1 and not kws \
+                and args[0][0] == 'comp' and args[0][1] in ('gen', 'list') \
+                and args[0][2][0] == 'tuple' and len(args[0][2][1]) == 2:
+            # dict((k, v) for ...) == {k: v for ...}
+            kk, vv = args[0][2][1]
+            return ('comp', 'dict', ('pair', kk, vv), args[0][3])
+        if fk[0] == 'attr' and fk[2] == 'join' and len(args) == 1 \
+                and not kws and args[0][0] == 'comp' \
+                and args[0][1] == 'list':
+            args[0] = ('comp', 'gen') + args[0][2:]
+        if cname in ('list', 'tuple') and len(args) == 1 and not kws \
+                and args[0][0] == 'comp' and args[0][1] in ('gen', 'list'):
+            # list(<genexp>) == [<comp>]
+            if cname == 'list':
+                return ('comp', 'list') + args[0][2:]
+        if fk[0] == 'attr' and fk[2] == 'format' and fk[1][0] == 'const' \
+                and isinstance(fk[1][1], str) and not kws:
+            parts = fk[1][1].split('{}')
+            if len(parts) == len(args) + 1 and '{' not in ''.join(parts) \
+                    and '}' not in ''.join(parts):
+                out = []
+                for i, ptxt in enumerate(parts):
+                    if ptxt:
+                        out.append(('const', ptxt))
+                    if i < len(args):
+                        out.append(args[i])
+                return ('fstr', tuple(out))
         res = ('call', fk, tuple(args), kws)
         self._note_call(st, res, n)
         # a call on self (or passing self) may change self's attributes
@@ -644,11 +947,29 @@ class Evaluator(object):
         depth0 = self.depth
         for g in n.generators:
             it = self.k(g.iter, st2)
+            if it[0] == 'comp' and it[1] in ('gen', 'list') and isinstance(
+                    g.target, ast.Name):
+                # iterating over a comprehension: fuse (x for x in (f(y) for
+                # y in ys) if p(x))  ==  (f(y) for y in ys if p(f(y)))
+                st2.env[g.target.id] = poly_of_key(it[2])
+                inner = list(it[3])
+                self.depth += len(inner)
+                cl = set()
+                for c in g.ifs:
+                    cl |= lits_of(as_bool(self.k(c, st2)))
+                if cl:
+                    b0, i0, c0 = inner[-1]
+                    inner[-1] = (b0, i0, tuple(sorted(set(c0) | cl,
+                                                      key=_sk)))
+                gens.extend(inner)
+                continue
             base = ('bv', self.depth)
             self.depth += 1
             self._bind_target(g.target, base, st2)
-            conds = tuple(sorted((as_bool(self.k(c, st2)) for c in g.ifs),
-                                 key=_sk))
+            cl = set()
+            for c in g.ifs:
+                cl |= lits_of(as_bool(self.k(c, st2)))
+            conds = tuple(sorted(cl, key=_sk))
             gens.append((base, it, conds))
         if isinstance(n, ast.DictComp):
             elt = ('pair', self.k(n.key, st2), self.k(n.value, st2))
@@ -734,46 +1055,197 @@ class Path(object):
         return '[%s] -> %s' % (cs, o[0])
 
 
+def _event_keys(trace):
+    for e in trace:
+        if e[0] == 'loop':
+            for tr, o in e[2]:
+                for x in _event_keys(tr):
+                    yield x
+        elif e[0] == 'loop-part':
+            for x in _event_keys(e[2]):
+                yield x
+        else:
+            for x in e[1:]:
+                if isinstance(x, tuple):
+                    yield x
+
+
+def path_keys(path):
+    """Every sub-key occurring in a path: outcome, conditions, stores,
+    calls, loop bodies (helpers that were followed included)."""
+    o = path.outcome
+    roots = [x for x in o[1:] if isinstance(x, tuple)]
+    roots.extend(_event_keys(path.trace))
+    for r in roots:
+        for k in subkeys(r):
+            yield k
+
+
+def has_handler(path):
+    """Does the path run inside / through an exception handler?"""
+    def walk(trace):
+        for e in trace:
+            if e[0] in ('except', 'caught'):
+                return True
+            if e[0] == 'loop' and any(walk(tr) for tr, o in e[2]):
+                return True
+            if e[0] == 'loop-part' and walk(e[2]):
+                return True
+        return False
+    return walk(path.trace)
+
+
 MAX_PATHS = 4096
 
 
+def _is_new_function(rel, qualname):
+    """A function that has no reviewed counterpart: a helper introduced
+    after the review.  Calls to it are followed (summarised in place) so the
+    caller's normal form is that of the code before the extraction."""
+    from . import reviewed
+    return ('%s::%s' % (rel, qualname)) not in reviewed.store()
+
+
+def _locals_of(func):
+    params_ = set(a.arg for a in func.args.args + func.args.kwonlyargs
+                  + getattr(func.args, 'posonlyargs', []))
+    if func.args.vararg:
+        params_.add(func.args.vararg.arg)
+    if func.args.kwarg:
+        params_.add(func.args.kwarg.arg)
+    glob = set()
+    stored = set()
+    todo = list(func.body)
+    while todo:
+        x = todo.pop()
+        if isinstance(x, (ast.FunctionDef, ast.ClassDef, ast.Lambda)):
+            if isinstance(x, (ast.FunctionDef, ast.ClassDef)):
+                stored.add(x.name)
+            continue
+        if isinstance(x, (ast.Global, ast.Nonlocal)):
+            glob.update(x.names)
+        if isinstance(x, ast.Name) and isinstance(x.ctx, ast.Store):
+            stored.add(x.id)
+        if isinstance(x, (ast.ListComp, ast.SetComp, ast.DictComp,
+                          ast.GeneratorExp)):
+            continue    # comprehension targets are their own scope
+        if isinstance(x, ast.ExceptHandler) and x.name:
+            stored.add(x.name)
+        if isinstance(x, (ast.Import, ast.ImportFrom)):
+            for a in x.names:
+                stored.add((a.asname or a.name).split('.')[0])
+        todo.extend(ast.iter_child_nodes(x))
+    return stored - params_ - glob, params_
+
+
+def context_of(func):
+    """(rel, module tree, class node or None) of a repository function (or of
+    the function a reference stands for: `_ctx_from`)."""
+    f = getattr(func, '_ctx_from', func)
+    rel = getattr(f, '_rel', None)
+    if rel is None:
+        return None
+    cls = getattr(f, '_parent', None)
+    if not isinstance(cls, ast.ClassDef):
+        cls = None
+    mod = f
+    while getattr(mod, '_parent', None) is not None:
+        mod = mod._parent
+    if not isinstance(mod, ast.Module):
+        return None
+    return (rel, mod, cls)
+
+
+_COMPS = (ast.ListComp, ast.SetComp, ast.DictComp, ast.GeneratorExp,
+          ast.Lambda)
+
+
+def _header_exprs(n):
+    """Expressions a statement evaluates exactly once, itself."""
+    if isinstance(n, (ast.Expr, ast.Return)):
+        return [n.value] if n.value is not None else []
+    if isinstance(n, ast.Assign):
+        return [n.value] + [t for t in n.targets
+                            if not isinstance(t, ast.Name)]
+    if isinstance(n, (ast.AugAssign, ast.AnnAssign)):
+        return [n.value] if n.value is not None else []
+    if isinstance(n, (ast.If, ast.Assert)):
+        return [n.test]
+    if isinstance(n, ast.For):
+        return [n.iter]
+    if isinstance(n, ast.With):
+        return [i.context_expr for i in n.items]
+    if isinstance(n, ast.Raise):
+        return [n.exc] if n.exc is not None else []
+    return []
+
+
+def _find_expr(roots, pred):
+    """First node (evaluation order, not inside a lambda/comprehension)
+    satisfying pred."""
+    for r in roots:
+        stack = [r]
+        while stack:
+            x = stack.pop()
+            if isinstance(x, _COMPS):
+                continue
+            if pred(x):
+                return x
+            stack.extend(reversed(list(ast.iter_child_nodes(x))))
+    return None
+
+
+def _replace_node(node, target, new):
+    """Copy of `node` with the sub-node `target` replaced by `new` (only the
+    spine is copied; the original tree is never mutated)."""
+    if node is target:
+        return new
+    if not isinstance(node, ast.AST):
+        return node
+    changed = False
+    fields = {}
+    for name, val in ast.iter_fields(node):
+        if isinstance(val, list):
+            nl = [_replace_node(x, target, new) for x in val]
+            if any(a is not b for a, b in zip(nl, val)):
+                changed = True
+            fields[name] = nl
+        elif isinstance(val, ast.AST):
+            nv = _replace_node(val, target, new)
+            if nv is not val:
+                changed = True
+            fields[name] = nv
+        else:
+            fields[name] = val
+    if not changed:
+        return node
+    nn = type(node)(**fields)
+    return ast.copy_location(nn, node)
+
+
+INLINE_DEPTH = 3
+
+
 class Summarizer(Evaluator):
-    def __init__(self, **kw):
+    def __init__(self, inline=True, **kw):
         Evaluator.__init__(self, **kw)
         self.loop_id = 0
+        self.inline = inline
+        self.ctx = None
+        self.inline_stack = []
+        self.inlined = []       # qualnames followed (for evidence)
+        self.ph = 0
+        self.appender_stack = []
 
     def summarize(self, func, env=None):
         st = State(env=dict(env or {}))
         # locals: names stored somewhere in the function (not parameters,
         # not declared global)
-        params_ = set(a.arg for a in func.args.args + func.args.kwonlyargs)
-        if func.args.vararg:
-            params_.add(func.args.vararg.arg)
-        if func.args.kwarg:
-            params_.add(func.args.kwarg.arg)
-        glob = set()
-        stored = set()
-        todo = list(func.body)
-        while todo:
-            x = todo.pop()
-            if isinstance(x, (ast.FunctionDef, ast.ClassDef, ast.Lambda)):
-                if isinstance(x, (ast.FunctionDef, ast.ClassDef)):
-                    stored.add(x.name)
-                continue
-            if isinstance(x, (ast.Global, ast.Nonlocal)):
-                glob.update(x.names)
-            if isinstance(x, ast.Name) and isinstance(x.ctx, ast.Store):
-                stored.add(x.id)
-            if isinstance(x, (ast.ListComp, ast.SetComp, ast.DictComp,
-                              ast.GeneratorExp)):
-                continue    # comprehension targets are their own scope
-            if isinstance(x, ast.ExceptHandler) and x.name:
-                stored.add(x.name)
-            if isinstance(x, (ast.Import, ast.ImportFrom)):
-                for a in x.names:
-                    stored.add((a.asname or a.name).split('.')[0])
-            todo.extend(ast.iter_child_nodes(x))
-        self.locals_ = stored - params_ - glob
+        self.locals_, self.params_ = _locals_of(func)
+        if self.ctx is None:
+            self.ctx = context_of(func)
+        self.inline_stack = [getattr(getattr(func, '_ctx_from', func),
+                                     '_qual', func.name)]
         outs = self.block(func.body, st)
         paths = []
         for s, o in outs:
@@ -805,7 +1277,152 @@ class Summarizer(Evaluator):
         if m is None:
             raise Unmodelled('statement %s at line %s'
                              % (type(n).__name__, n.lineno))
+        hdr = _header_exprs(n)
+        if hdr:
+            # `x = a if c else b`  ==  `if c: x = a  else: x = b`
+            ife = _find_expr(hdr, lambda x: isinstance(x, ast.IfExp))
+            if ife is not None:
+                a = _replace_node(n, ife, ife.body)
+                b = _replace_node(n, ife, ife.orelse)
+                fake = ast.If(test=ife.test, body=[a], orelse=[b])
+                ast.copy_location(fake, n)
+                return self.st_If(fake, st)
+            if self.inline and self.ctx is not None:
+                hit = _find_expr(hdr, lambda x: isinstance(x, ast.Call)
+                                 and self._resolve(x) is not None)
+                if hit is not None:
+                    r = self._inline(n, hit, st)
+                    if r is not None:
+                        return r
         return m(n, st)
+
+    # -- following helpers that were introduced after the review ---------
+    def _resolve(self, call):
+        """(FunctionDef, qualname, kind) for a call to a function of the
+        same module/class that has no reviewed counterpart."""
+        if getattr(call, '_no_inline', False):
+            return None
+        rel, mod, cls = self.ctx
+        f = call.func
+        target = None
+        kind = 'function'
+        owner = None
+        if isinstance(f, ast.Name):
+            if f.id in self.locals_ or f.id in self.params_:
+                return None
+            for stmt in mod.body:
+                if isinstance(stmt, ast.FunctionDef) and stmt.name == f.id:
+                    target = stmt
+        elif isinstance(f, ast.Attribute) and isinstance(f.value, ast.Name):
+            classes = dict((c.name, c) for c in mod.body
+                           if isinstance(c, ast.ClassDef))
+            if f.value.id in ('self', 'cls') and cls is not None:
+                owner = cls
+            elif f.value.id in classes and f.value.id not in self.locals_:
+                owner = classes[f.value.id]
+                kind = 'unbound'
+            seen = set()
+            while owner is not None and owner.name not in seen:
+                seen.add(owner.name)
+                for stmt in owner.body:
+                    if isinstance(stmt, ast.FunctionDef) \
+                            and stmt.name == f.attr:
+                        target = stmt
+                if target is not None:
+                    break
+                nxt = None
+                for b in owner.bases:
+                    if isinstance(b, ast.Name) and b.id in classes:
+                        nxt = classes[b.id]
+                        break
+                owner = nxt
+            if target is not None and kind != 'unbound':
+                kind = 'method'
+        if target is None:
+            return None
+        decos = [src(d) for d in target.decorator_list]
+        if decos == ['staticmethod']:
+            kind = 'function'
+        elif decos == ['classmethod']:
+            kind = 'method' if kind != 'unbound' else 'classbound'
+        elif decos:
+            return None
+        qual = (owner.name + '.' if owner is not None else '') + target.name
+        if qual in self.inline_stack or len(self.inline_stack) \
+                > INLINE_DEPTH:
+            return None
+        for x in ast.walk(target):
+            if isinstance(x, (ast.Yield, ast.YieldFrom, ast.Await)):
+                return None
+        if not _is_new_function(rel, qual):
+            return None
+        return target, qual, kind
+
+    def _inline(self, n, call, st):
+        target, qual, kind = self._resolve(call)
+        a = target.args
+        if a.vararg or a.kwarg or a.kwonlyargs or getattr(
+                a, 'posonlyargs', []):
+            return None
+        if any(isinstance(x, ast.Starred) for x in call.args) or any(
+                kw.arg is None for kw in call.keywords):
+            return None
+        names = [x.arg for x in a.args]
+        probe = st.copy()
+        probe.trace = list(st.trace)
+        vals = {}
+        pos = []
+        if kind in ('method', 'classbound'):
+            pos.append(self.ev(call.func.value, probe))
+        pos.extend(self.ev(x, probe) for x in call.args)
+        if len(pos) > len(names):
+            return None
+        for nm, v in zip(names, pos):
+            vals[nm] = v
+        for kw in call.keywords:
+            if kw.arg not in names or kw.arg in vals:
+                return None
+            vals[kw.arg] = self.ev(kw.value, probe)
+        nd = len(a.defaults)
+        for i, d in enumerate(a.defaults):
+            nm = names[len(names) - nd + i]
+            if nm not in vals:
+                vals[nm] = self.ev(d, State())
+        if set(vals) != set(names):
+            return None
+        caller_env = st.env
+        saved = (self.locals_, self.params_)
+        callee_st = State(dict(vals), probe.heap, probe.trace)
+        self.locals_, self.params_ = _locals_of(target)
+        self.inline_stack.append(qual)
+        try:
+            try:
+                outs = self.block(target.body, callee_st)
+            except Unmodelled:
+                call._no_inline = True
+                return None
+        finally:
+            self.inline_stack.pop()
+            self.locals_, self.params_ = saved
+        if qual not in self.inlined:
+            self.inlined.append(qual)
+        results = []
+        for s, o in outs:
+            if o is None:
+                o = ('return', ('const', None))
+            if o[0] in ('break', 'continue'):
+                raise Unmodelled('%s outside loop in %s' % (o[0], qual))
+            back = State(dict(caller_env), s.heap, s.trace)
+            if o[0] == 'raise':
+                results.append((back, o))
+                continue
+            self.ph += 1
+            ph = '__inl%d' % self.ph
+            back.env[ph] = poly_of_key(o[1])
+            n2 = _replace_node(n, call, ast.copy_location(
+                ast.Name(id=ph, ctx=ast.Load()), call))
+            results.extend(self.stmt(n2, back))
+        return results
 
     def st_Pass(self, n, st):
         return [(st, None)]
@@ -833,6 +1450,15 @@ class Summarizer(Evaluator):
 
     def st_Expr(self, n, st):
         if isinstance(n.value, ast.Constant):
+            return [(st, None)]
+        if self.appender_stack and self.appender_stack[-1] and isinstance(
+                n.value, ast.Call) and isinstance(
+                n.value.func, ast.Attribute) and n.value.func.attr == 'append' \
+                and isinstance(n.value.func.value, ast.Name) \
+                and n.value.func.value.id in self.appender_stack[-1] \
+                and len(n.value.args) == 1:
+            st.trace.append(('append', n.value.func.value.id,
+                             self.k(n.value.args[0], st), n.lineno))
             return [(st, None)]
         v = self.k(n.value, st)
         st.trace.append(('expr', v, n.lineno))
@@ -922,6 +1548,15 @@ class Summarizer(Evaluator):
                 st.trace.append(('aug', tk, 'Add', rest.key(), lineno))
 
     def st_Assign(self, n, st):
+        if self.appender_stack and self.appender_stack[-1] \
+                and len(n.targets) == 1 and isinstance(
+                    n.targets[0], ast.Subscript) and isinstance(
+                    n.targets[0].value, ast.Name) \
+                and n.targets[0].value.id in self.appender_stack[-1]:
+            st.trace.append(('append', n.targets[0].value.id,
+                             ('pair', self.k(n.targets[0].slice, st),
+                              self.k(n.value, st)), n.lineno))
+            return [(st, None)]
         val = self.ev(n.value, st)
         for t in n.targets:
             self.assign(t, val, st, n.lineno)
@@ -957,38 +1592,230 @@ class Summarizer(Evaluator):
         return self.block(n.body, st)
 
     # loops -----------------------------------------------------------
-    def _loop(self, n, st, gens_key, bind):
+    def _appenders(self, body, pre):
+        """Names bound to an empty list before the loop whose only use in the
+        loop body is one `name.append(E)` statement (the explicit form of a
+        list comprehension)."""
+        out = {}
+        uses = {}
+        for node in ast.walk(ast.Module(body=body, type_ignores=[])):
+            if isinstance(node, ast.Name):
+                uses[node.id] = uses.get(node.id, 0) + 1
+            if isinstance(node, ast.Expr) and isinstance(node.value, ast.Call):
+                f = node.value.func
+                if isinstance(f, ast.Attribute) and f.attr == 'append' \
+                        and isinstance(f.value, ast.Name) \
+                        and len(node.value.args) == 1 \
+                        and not node.value.keywords:
+                    out.setdefault(f.value.id, []).append(node)
+        names = set()
+        for name, nodes in out.items():
+            pv = pre.env.get(name)
+            if len(nodes) == 1 and uses.get(name) == 1 and pv is not None \
+                    and key(pv) == ('list', ()):
+                names.add(name)
+        return names
+
+    def _dict_builders(self, body, pre):
+        """Names bound to an empty dict before the loop whose only use in
+        the loop body is one `name[K] = V` statement (the explicit form of a
+        dict comprehension)."""
+        uses = {}
+        sets = {}
+        for node in ast.walk(ast.Module(body=body, type_ignores=[])):
+            if isinstance(node, ast.Name):
+                uses[node.id] = uses.get(node.id, 0) + 1
+            if isinstance(node, ast.Assign) and len(node.targets) == 1 \
+                    and isinstance(node.targets[0], ast.Subscript) \
+                    and isinstance(node.targets[0].value, ast.Name):
+                sets.setdefault(node.targets[0].value.id, []).append(node)
+        names = set()
+        for name, nodes in sets.items():
+            pv = pre.env.get(name)
+            if len(nodes) == 1 and uses.get(name) == 1 and pv is not None \
+                    and key(pv) == ('dict', ()):
+                names.add(name)
+        return names
+
+    def _havoc(self, body, body_st):
+        """Loop-carried state is unknown at the start of an iteration.
+
+        * A local that the body re-binds reads as an opaque
+          ('carried', depth, n) inside the body.
+        * A local whose *object* the body changes in place (method call
+          statement, item/attribute store, del) keeps its identity, but a
+          value computed from it before the loop is a snapshot: another
+          local holding such a value reads as ('snapshot', value) inside the
+          body -- `known = a + b` hoisted out of a loop that appends to b
+          is not `a + b` evaluated inside it.
+        * Heap facts about attributes the body stores are dropped."""
+        first = {}
+        mutated = set()
+        attrs = set()
+        sub_store = False
+
+        def note(name, node):
+            pos = (getattr(node, 'lineno', 0), getattr(node, 'col_offset', 0))
+            if name not in first or pos < first[name]:
+                first[name] = pos
+
+        def root(e):
+            while isinstance(e, (ast.Attribute, ast.Subscript)):
+                e = e.value
+            return e.id if isinstance(e, ast.Name) else None
+        for node in ast.walk(ast.Module(body=body, type_ignores=[])):
+            if isinstance(node, ast.Name) and isinstance(
+                    node.ctx, (ast.Store, ast.Del)):
+                note(node.id, node)
+            elif isinstance(node, (ast.Attribute, ast.Subscript)) \
+                    and isinstance(node.ctx, (ast.Store, ast.Del)):
+                r = root(node)
+                if r is not None:
+                    mutated.add(r)
+                if isinstance(node, ast.Attribute):
+                    attrs.add(node.attr)
+                else:
+                    sub_store = True
+            elif isinstance(node, ast.Expr) and isinstance(
+                    node.value, ast.Call) and isinstance(
+                    node.value.func, ast.Attribute):
+                # obj.method(...) as a statement: obj may change
+                r = root(node.value.func.value)
+                if r is not None:
+                    mutated.add(r)
+                f = node.value.func.value
+                if isinstance(f, ast.Attribute):
+                    attrs.add(f.attr)
+        depth = self.depth
+        # snapshots of objects changed in place
+        mkeys = set()
+        for r in mutated - set(first):
+            if r in ('self', 'cls'):
+                continue
+            v = body_st.env.get(r)
+            mkeys.add(('name', r) if v is None else key(v))
+        mkeys = set(k for k in mkeys if isinstance(k, tuple) and k[0] in (
+            'name', 'list', 'dict', 'set', 'call', 'comp', 'attr', 'sub'))
+        if mkeys:
+            for name, v in list(body_st.env.items()):
+                if name in mutated or name in first:
+                    continue
+                kv = key(v)
+                if isinstance(kv, tuple) and kv and kv[0] in (
+                        'import', 'importfrom', 'localfunc', 'bv'):
+                    continue
+                if kv not in mkeys and mentions_any(kv, mkeys):
+                    body_st.env[name] = ('snapshot', kv)
+        n = 0
+        for name in sorted(first, key=lambda x: first[x]):
+            v = body_st.env.get(name)
+            if v is None or name in ('self', 'cls'):
+                continue
+            if isinstance(v, tuple) and v and v[0] in (
+                    'import', 'importfrom', 'localfunc', 'bv'):
+                continue
+            body_st.env[name] = ('carried', depth, n)
+            n += 1
+        for hk in list(body_st.heap):
+            if hk[1] in attrs or (sub_store and isinstance(hk[1], tuple)
+                                  and hk[1][0] == 'idx'):
+                del body_st.heap[hk]
+
+    def _flags(self, body, pre):
+        """Names holding a boolean constant before the loop that the body
+        only ever sets to the opposite constant (flag-and-break == any())."""
+        cand = {}
+        bad = set()
+        for node in ast.walk(ast.Module(body=body, type_ignores=[])):
+            if isinstance(node, ast.Assign):
+                for t in node.targets:
+                    if isinstance(t, ast.Name):
+                        if isinstance(node.value, ast.Constant) and \
+                                isinstance(node.value.value, (bool, int)) \
+                                and len(node.targets) == 1:
+                            cand.setdefault(t.id, []).append(
+                                node.value.value)
+                        else:
+                            bad.add(t.id)
+                    else:
+                        for x in ast.walk(t):
+                            if isinstance(x, ast.Name) and isinstance(
+                                    x.ctx, ast.Store):
+                                bad.add(x.id)
+            elif isinstance(node, (ast.AugAssign, ast.AnnAssign, ast.For,
+                                   ast.With, ast.NamedExpr)):
+                tg = [node.target] if not isinstance(node, ast.With) else [
+                    i.optional_vars for i in node.items
+                    if i.optional_vars is not None]
+                for t in tg:
+                    for x in ast.walk(t):
+                        if isinstance(x, ast.Name):
+                            bad.add(x.id)
+        out = {}
+        for name, vals in cand.items():
+            pv = pre.env.get(name)
+            if name in bad or not vals or pv is None:
+                continue
+            pk = key(pv)
+            if pk[0] == 'const' and isinstance(pk[1], bool) and all(
+                    isinstance(v, bool) and v == (not pk[1]) for v in vals):
+                out[name] = pk[1]
+            elif pk[0] == 'num' and pk[1] in (0, 1) and all(
+                    not isinstance(v, bool) and v == 1 - pk[1]
+                    for v in vals):
+                out[name] = int(pk[1])      # 0/1 used as a flag
+        return out
+
+    def _loop(self, n, st, gens_key, bind, body=None, extra_assigned=(),
+              is_for=True):
         """Generic loop summary.  Body is walked once with the loop variable
         bound to an alpha-renamed bound variable.  Results:
         * for every body path that returns/raises: one overall path
           'exists an iteration satisfying <conds>' -> that outcome;
         * one fall-through path where each variable assigned in the body
           becomes pre + SUM(delta) when the body adds a loop-invariant-free
-          delta to it (accumulate idiom), else an opaque loop value; the
-          body's events are kept as one ('loop', ...) event."""
+          delta to it (accumulate idiom), a comprehension when the body
+          appends to a fresh list, an existential when it raises a flag,
+          else an opaque loop value; the body's events are kept as one
+          ('loop', ...) event."""
+        if body is None:
+            body = n.body
         self.loop_id += 1
         lid = self.loop_id
         pre = st
         body_st = State(dict(pre.env), dict(pre.heap), [])
         bind(body_st)
+        appenders = self._appenders(body, pre) if is_for else set()
+        dictb = self._dict_builders(body, pre) if is_for else set()
+        flags = self._flags(body, pre)
+        self._havoc(body, body_st)
+        body_st0 = dict(body_st.env)
+        self.appender_stack.append(appenders | dictb)
+        appenders = appenders | dictb
         self.depth += 1
         try:
-            outs = self.block(n.body, body_st)
+            outs = self.block(body, body_st)
         finally:
             self.depth -= 1
+            self.appender_stack.pop()
         results = []
         fall_states = []
         for s, o in outs:
             if o is not None and o[0] in ('return', 'raise'):
                 ex = pre.copy()
-                conds = tuple((e[1], e[2]) for e in s.trace
-                              if e[0] == 'cond')
-                ex.trace.append(('cond', ('exists', gens_key, conds), True,
+                lits = set()
+                for e in s.trace:
+                    if e[0] == 'cond':
+                        lits |= lits_of(e[1], e[2])
+                ex.trace.append(('cond', exists_key(gens_key, lits), True,
                                  n.lineno))
                 ex.trace.append(('loop-part', gens_key, tuple(s.trace), lid))
                 results.append((ex, o))
             else:
+                if o is not None and o[0] == 'continue':
+                    o = None        # next iteration either way
                 fall_states.append((s, o))
+        has_break = any(o is not None for s, o in fall_states)
         # fall-through
         ft = pre.copy()
         ex_conds = []
@@ -996,13 +1823,17 @@ class Summarizer(Evaluator):
             ex_conds.append(ex.trace[-2][1])
         for c in ex_conds:
             ft.trace.append(('cond', c, False, n.lineno))
-        body_events = []
-        for s, o in fall_states:
-            body_events.append((tuple(s.trace), o[0] if o else None))
-        ft.trace.append(('loop', gens_key, tuple(body_events), lid, n.lineno))
+
+        def path_lits(s):
+            lits = set()
+            for e in s.trace:
+                if e[0] == 'cond':
+                    lits |= lits_of(e[1], e[2])
+            return tuple(sorted(lits, key=_sk))
+
         # variables
-        assigned = set()
-        for node in ast.walk(ast.Module(body=n.body, type_ignores=[])):
+        assigned = set(extra_assigned)
+        for node in ast.walk(ast.Module(body=body, type_ignores=[])):
             if isinstance(node, (ast.Assign, ast.AugAssign, ast.AnnAssign,
                                  ast.For, ast.With, ast.NamedExpr)):
                 tg = []
@@ -1020,22 +1851,126 @@ class Summarizer(Evaluator):
                         if isinstance(x, ast.Name) and isinstance(
                                 x.ctx, ast.Store):
                             assigned.add(x.id)
-        for name in sorted(assigned):
-            newv = None
-            if len(fall_states) == 1 and name in pre.env:
-                post = fall_states[0][0].env.get(name)
-                if post is not None:
-                    delta = to_poly(post) - to_poly(pre.env[name])
-                    pre_atoms = to_poly(pre.env[name]).atoms()
-                    if not delta.is_const() or delta.const_value() != 0:
-                        if not (delta.atoms() & pre_atoms) or \
-                                to_poly(pre.env[name]).is_const():
-                            newv = to_poly(pre.env[name]) + Poly.atom(
-                                ('sum', delta.key(), gens_key))
+        newvals = {}
+        # explicit comprehension: fresh list + one append
+        done_app = set()
+        for name in sorted(appenders):
+            hits = []
+            for s, o in fall_states:
+                evs = [e for e in s.trace if e[0] == 'append'
+                       and e[1] == name]
+                if evs:
+                    hits.append((s, evs))
+            changed = [(s, s.env.get(name)) for s, o in fall_states
+                       if s.env.get(name) is not None
+                       and key(s.env[name]) != (
+                           ('dict', ()) if name in dictb else ('list', ()))]
+            if has_break:
+                continue
+            if len(hits) == 1 and len(hits[0][1]) == 1 and not changed:
+                s, evs = hits[0]
+                conds = path_lits(s) if len(fall_states) > 1 else ()
+                base, it, _ = gens_key[0]
+                newvals[name] = ('comp', 'dict' if name in dictb else 'list',
+                                 evs[0][2], ((base, it, conds),))
+                done_app.add(name)
+            elif not hits and len(changed) == 1 and key(
+                    changed[0][1])[0] == 'comp' and key(
+                    changed[0][1])[1] == 'list' and name not in dictb:
+                s, v = changed[0]
+                v = key(v)
+                conds = path_lits(s) if len(fall_states) > 1 else ()
+                base, it, _ = gens_key[0]
+                newvals[name] = ('comp', 'list', v[2],
+                                 ((base, it, conds),) + v[3])
+                done_app.add(name)
+        # appends that are not the comprehension idiom stay ordinary effects
+        for s, o in fall_states:
+            for i, e in enumerate(s.trace):
+                if e[0] == 'append' and e[1] not in done_app:
+                    if e[1] in dictb:
+                        s.trace[i] = ('store', ('sub', ('dict', ()),
+                                                e[2][1]), e[2][2], e[3])
                     else:
+                        s.trace[i] = ('expr', ('call', (
+                            'attr', ('list', ()), 'append'), (e[2],), ()),
+                            e[3])
+        for s, o in fall_states:
+            s.trace[:] = [e for e in s.trace if e[0] != 'append']
+        body_events = []
+        for s, o in fall_states:
+            body_events.append((tuple(s.trace), o[0] if o else None))
+        ft.trace.append(('loop', gens_key, tuple(body_events), lid, n.lineno))
+        # flag raised in the loop
+        for name, prev in sorted(flags.items()):
+            setters = []
+            numeric = not isinstance(prev, bool)
+            other = ('num', Fraction(1 - prev)) if numeric else (
+                'const', not prev)
+            for s, o in fall_states:
+                pv = s.env.get(name)
+                if pv is not None and key(pv) == other:
+                    setters.append(exists_key(gens_key, path_lits(s)))
+            if not setters:
+                newvals[name] = pre.env[name]
+            elif numeric:
+                e = self._bool('or', setters)
+                newvals[name] = ('ifexp', e, other, ('num', Fraction(prev)))
+            else:
+                e = self._bool('or', setters)
+                newvals[name] = e if not prev else b_not(e)
+        for name in sorted(assigned | set(newvals)):
+            newv = newvals.get(name)
+            if newv is None and name in pre.env and not has_break \
+                    and name not in extra_assigned:
+                pre_p = to_poly(pre.env[name])
+                start = body_st0.get(name)
+                in_p = to_poly(start) if start is not None else pre_p
+                pre_atoms = in_p.atoms() | set(
+                    a for a in pre_p.atoms() if not pre_p.is_const())
+                terms = []
+                ok = True
+                for s, o in fall_states:
+                    post = s.env.get(name)
+                    if post is None:
+                        ok = False
+                        break
+                    delta = to_poly(post) - in_p
+                    if delta.is_const() and delta.const_value() == 0:
+                        continue
+                    if mentions_any(delta, pre_atoms):
+                        ok = False
+                        break
+                    if isinstance(post, tuple) and not isinstance(
+                            pre.env[name], Poly) and key(post)[0] in (
+                            'comp', 'strcat', 'list', 'tuple', 'dict'):
+                        ok = False
+                        break
+                    base, it, _ = gens_key[0]
+                    conds = path_lits(s) if len(fall_states) > 1 else ()
+                    dk = delta.key()
+                    if dk[0] == 'sum':
+                        # a sum of sums is one sum over both generators
+                        terms.append(Poly.atom(('sum', dk[1], (
+                            (base, it, conds),) + tuple(dk[2]))))
+                    else:
+                        terms.append(Poly.atom(('sum', dk,
+                                                ((base, it, conds),))))
+                if ok:
+                    newv = pre_p
+                    for t in terms:
+                        newv = newv + t
+                    if not terms:
                         newv = pre.env[name]
             if newv is None:
-                newv = ('loopvar', name, gens_key, lid)
+                # opaque, but a function of what each iteration does to it
+                posts = set()
+                for s, o in fall_states:
+                    pv = s.env.get(name)
+                    posts.add((path_lits(s) if len(fall_states) > 1 else (),
+                               None if pv is None else key(pv),
+                               o[0] if o else None))
+                newv = ('loopvar', gens_key, tuple(sorted(posts, key=_sk)))
             ft.env[name] = newv
         # heap entries written in the body are unknown afterwards
         for s, o in fall_states:
@@ -1047,25 +1982,165 @@ class Summarizer(Evaluator):
                     elif tk[0] == 'sub':
                         ft.heap.pop((tk[1], ('idx', tk[2])), None)
         if n.orelse:
-            results.extend(self.block(n.orelse, ft))
+            if has_break:
+                # the else suite runs iff no iteration took a break
+                brk = self._bool('or', [exists_key(gens_key, path_lits(s))
+                                        for s, o in fall_states
+                                        if o is not None])
+                a = ft.copy()
+                a.trace.append(('cond', brk, False, n.lineno))
+                results.extend(self.block(n.orelse, a))
+                ft.trace.append(('cond', brk, True, n.lineno))
+                results.append((ft, None))
+            else:
+                results.extend(self.block(n.orelse, ft))
         else:
             results.append((ft, None))
         return results
 
     def st_For(self, n, st):
-        it = self.k(n.iter, st)
+        elts = self._enumerable(n.iter, st) if isinstance(
+            n.iter, (ast.Tuple, ast.List)) else None
+        if elts is not None and elts:
+            return self._unrolled(n, elts, st)
+        it_node, target, body = n.iter, n.target, n.body
+        idx_name, start = None, None
+        if isinstance(it_node, ast.Call) and isinstance(
+                it_node.func, ast.Name) and it_node.func.id == 'enumerate' \
+                and 'enumerate' not in st.env and not it_node.keywords \
+                and 1 <= len(it_node.args) <= 2 and isinstance(
+                    target, (ast.Tuple, ast.List)) and len(target.elts) == 2 \
+                and isinstance(target.elts[0], ast.Name):
+            idx_name = target.elts[0].id
+            start = self.ev(it_node.args[1], st) if len(
+                it_node.args) == 2 else Poly.const(0)
+            target = target.elts[1]
+            it_node = it_node.args[0]
+        elif isinstance(it_node, ast.Call) and isinstance(
+                it_node.func, ast.Name) and it_node.func.id == 'range' \
+                and 'range' not in st.env and not it_node.keywords \
+                and isinstance(target, ast.Name) and (
+                    (len(it_node.args) == 1 and self._is_len(it_node.args[0]))
+                    or (len(it_node.args) == 2 and isinstance(
+                        it_node.args[0], ast.Constant)
+                        and it_node.args[0].value == 0
+                        and self._is_len(it_node.args[1]))):
+            # for i in range(len(xs))  ==  for i, _ in enumerate(xs)
+            idx_name = target.id
+            start = Poly.const(0)
+            it_node = it_node.args[-1].args[0]
+            target = None
+        else:
+            # manual counter: `i = c` before, `i += 1` last in the body
+            last = body[-1] if body else None
+            nm = None
+            if isinstance(last, ast.AugAssign) and isinstance(
+                    last.op, ast.Add) and isinstance(last.target, ast.Name) \
+                    and isinstance(last.value, ast.Constant) \
+                    and last.value.value == 1:
+                nm = last.target.id
+            elif isinstance(last, ast.Assign) and len(last.targets) == 1 \
+                    and isinstance(last.targets[0], ast.Name) and src(
+                        last.value) in ('%s + 1' % last.targets[0].id,
+                                        '1 + %s' % last.targets[0].id):
+                nm = last.targets[0].id
+            if nm is not None and nm in st.env and isinstance(
+                    st.env[nm], Poly) and st.env[nm].is_const():
+                rest = ast.Module(body=body[:-1], type_ignores=[])
+                clean = True
+                for x in ast.walk(rest):
+                    if isinstance(x, ast.Name) and x.id == nm and isinstance(
+                            x.ctx, (ast.Store, ast.Del)):
+                        clean = False
+                    if isinstance(x, ast.Continue):
+                        clean = False
+                if clean and len(body) > 1:
+                    idx_name, start, body = nm, st.env[nm], body[:-1]
+        it = self.k(it_node, st)
         base = ('bv', self.depth)
         gens_key = ((base, it, ()),)
+        depth = self.depth
 
         def bind(body_st):
-            self._bind_target(n.target, base, body_st)
-        return self._loop(n, st, gens_key, bind)
+            if idx_name is not None:
+                # indexed forms: the element is xs[<position>]
+                pos = ('bv', depth, 'idx')
+                body_st.env[idx_name] = Poly.atom(pos) + to_poly(start)
+                if target is not None:
+                    self._bind_target_value(target, ('sub', it, pos),
+                                            body_st)
+            else:
+                self._bind_target(target, base, body_st)
+        return self._loop(n, st, gens_key, bind, body=body,
+                          extra_assigned=(idx_name,) if idx_name else ())
+
+    def _is_len(self, node):
+        return isinstance(node, ast.Call) and isinstance(
+            node.func, ast.Name) and node.func.id == 'len' \
+            and len(node.args) == 1 and not node.keywords
+
+    def _bind_target_value(self, target, val, st):
+        if isinstance(target, ast.Name):
+            st.env[target.id] = val
+        elif isinstance(target, (ast.Tuple, ast.List)):
+            for i, e in enumerate(target.elts):
+                self._bind_target_value(
+                    e, ('sub', val, ('num', Fraction(i))), st)
+        else:
+            raise Unmodelled('loop target %s' % src(target))
+
+    def _unrolled(self, n, elts, st):
+        """`for x in (a, b, c): body` -- the iterable is spelled out, so the
+        loop is its body once per element."""
+        live = [(st, None)]
+        for e in elts:
+            nxt = []
+            for s, o in live:
+                if o is not None:
+                    nxt.append((s, o))
+                    continue
+                fake = ast.Assign(targets=[n.target], value=e)
+                ast.copy_location(fake, n)
+                ast.fix_missing_locations(fake)
+                self.st_Assign(fake, s)
+                for s2, o2 in self.block(n.body, s):
+                    if o2 is not None and o2[0] == 'continue':
+                        o2 = None
+                    nxt.append((s2, o2))
+            live = nxt
+            if len(live) > MAX_PATHS:
+                raise Unmodelled('more than %d paths' % MAX_PATHS)
+        out = []
+        for s, o in live:
+            if o is not None and o[0] == 'break':
+                out.append((s, None))
+            elif o is None and n.orelse:
+                out.extend(self.block(n.orelse, s))
+            else:
+                out.append((s, o))
+        return out
 
     def st_While(self, n, st):
+        # `while True: if c: break ...`  ==  `while not c: ...`
+        test, body = n.test, list(n.body)
+        while body and isinstance(body[0], ast.If) and not n.orelse \
+                and len(body[0].body) == 1 and isinstance(body[0].body[0],
+                                                          ast.Break):
+            neg = ast.UnaryOp(op=ast.Not(), operand=body[0].test)
+            ast.copy_location(neg, body[0].test)
+            if isinstance(test, ast.Constant) and test.value in (True, 1):
+                test = neg
+            else:
+                test = ast.BoolOp(op=ast.And(), values=[test, neg])
+                ast.copy_location(test, n.test)
+            body = list(body[0].orelse) + body[1:]
+            if not body:
+                body = [ast.copy_location(ast.Pass(), n)]
         body_probe = State(dict(st.env), dict(st.heap), [])
-        t = as_bool(self.k(n.test, body_probe))
+        t = as_bool(self.k(test, body_probe))
         gens_key = ((('bv', self.depth), ('while', t), ()),)
-        return self._loop(n, st, gens_key, lambda s: None)
+        return self._loop(n, st, gens_key, lambda s: None, body=body,
+                          is_for=False)
 
     def st_Break(self, n, st):
         return [(st, ('break',))]
@@ -1112,7 +2187,7 @@ class Summarizer(Evaluator):
             for node in ast.walk(ast.Module(body=n.body, type_ignores=[])):
                 if isinstance(node, ast.Name) and isinstance(node.ctx,
                                                              ast.Store):
-                    s.env[node.id] = ('maybe', node.id, h.lineno)
+                    s.env[node.id] = ('maybe', node.id)
             if h.name:
                 s.env[h.name] = ('exc', names)
             results.extend(self.block(h.body, s))
